@@ -113,7 +113,26 @@ pub async fn run_case(case: &Case, window: Duration, max: usize) -> Obs {
         };
         // let the client finish channel setup and start its pump
         tokio::time::sleep(Duration::from_millis(20)).await;
-        for c in chunks {
+        // Channel messages that are not data do not end the byte stream (RFC 4254: only EOF and CLOSE
+        // do; `exit-status` is not ordered relative to data, and an sshd may send it before the last
+        // data packets; extended data is stderr). Which ones a case gets, and where, is a function of
+        // the case, so a replay sends the same packets. The model does not see them: they change nothing.
+        let n = chunks.len();
+        let noise = (n + chunks.iter().map(|c| c.len()).sum::<usize>()) % 4;
+        for (i, c) in chunks.into_iter().enumerate() {
+            match noise {
+                1 if i + 1 == n && n > 1 => {
+                    let _ = handle.exit_status_request(ch, 0).await;
+                }
+                2 if i == 1 => {
+                    let _ = handle.extended_data(ch, 1, CryptoVec::from_slice(b"warning: x\n")).await;
+                    let _ = handle.exit_status_request(ch, 0).await;
+                }
+                3 if i == n / 2 && n > 1 => {
+                    let _ = handle.extended_data(ch, 1, CryptoVec::from_slice(b"]]>]]>")).await;
+                }
+                _ => {}
+            }
             if handle.data(ch, CryptoVec::from_slice(&c)).await.is_err() {
                 return;
             }
